@@ -133,7 +133,9 @@ func maybeMarkEmptyMapping(
 	localIsIPv4 bool,
 	localAddr net.IP,
 ) {
-	if added {
+	// only an empty External list is a drop / no-op rule; externals that were all
+	// excluded by the rule's own Networks restriction leave a rule that applies to nothing.
+	if added || len(ruleMapping.rule.External) > 0 {
 		return
 	}
 
